@@ -132,6 +132,12 @@ STRUCT = {
          'self.s = self.s + self.a.get()', 'self.q.prepare(self.s & 7)'],
         ['\"\"\"one line only\"\"\"', 'self.q.prepare(self.a.get() + self.b.get())'],
     ],
+    'boolstate': [
+        # a state attribute initialised with False / True that later holds multi-bit values (a bool is an int in Python)
+        ['self.f = self.a.get()', 'self.q.prepare(self.f + 1)'],
+        ['if (self.f):', '    self.q.prepare(self.f)', 'else:', '    self.q.prepare(7)', 'self.f = self.b.get() & 3'],
+        ['self.q.prepare(self.f + self.s)', 'self.f = self.f + self.a.get()', 'self.s = self.f & 1'],
+    ],
     'ternary': [
         ['self.s = 1 if self.a.get() else 0', 'self.q.prepare(self.s)'],
         ['self.q.prepare(self.a.get() if self.b.get() == 1 else self.k)'],
@@ -164,6 +170,11 @@ def programs(tier):
             for body in bodies:
                 out.append(dict(base, kind='clock', family=fam, body=body))
         if first:
+            # a behavioural class that shares ONE module name between its instances and reads a Verilog parameter: two instances
+            # with different parameter values in one hierarchy (c02.build_gen builds the pair)
+            out.append(dict(base, kind='clock', family='sharedparam', p=2, body=["self.q.prepare(self.a.get() + self.getParameterValue('p'))"]))
+            out.append(dict(base, kind='clock', family='sharedparam', p=2,
+                            body=["self.s = (self.s + self.getParameterValue('p')) & 7", 'self.q.prepare(self.s)']))
             # ports wider than 32 bits with constants of 32 bits and more (no local or state variable exceeds 32 bits)
             wide = dict(base, wa=40, wb=40, wq=40)
             for body in WIDE:
@@ -185,12 +196,18 @@ def source(p, cname):
              "        self.b = self.addIn('b', b)",
              "        self.q = self.addOut('q', q)",
              '        self.k = k',
-             "        self.addParameter('p', %d)" % p['p']]
+             "        self.addParameter('p', %s)" % ('k' if p.get('family') == 'sharedparam' else '%d' % p['p'])]
     if p['kind'] == 'clock':
         lines.append('        self.s = %d' % p['s0'])
+        if p.get('family') == 'boolstate':
+            lines.append('        self.f = False')
         if p.get('family') == 'namedcase':
             lines.append('        self.c0 = 0')
             lines.append('        self.c1 = 1')
+    if p.get('family') == 'sharedparam':
+        lines.append('')
+        lines.append('    def structureName(self):')
+        lines.append("        return 'Shared_%s'" % cname)
     lines.append('')
     lines.append('    def %s(self):' % p['kind'])
     for l in p['body']:
@@ -231,8 +248,10 @@ class Interp:
         self.tree = ast.parse('\n'.join(p['body']))
         self.wa, self.wb, self.wq = p['wa'], p['wb'], p['wq']
 
-    def run(self, a, b, s):
+    def run(self, a, b, s, extra=None):
         self.env = {'a': a, 'b': b, 's': s, 'k': self.p['k'], 'p': self.p['p'], 'c0': 0, 'c1': 1}
+        if extra:
+            self.env.update(extra)
         self.loc = {}
         self.q = None
         try:
